@@ -1,13 +1,19 @@
 """C01 — step-groups run in order, fail fast, and route to success/failure handlers."""
-from core import fail
-from props.engine_common import EngineProp
+from props.engine_common import RefProp, EngineProp
 
 
-class Prop(EngineProp):
+class Prop(RefProp):
     id = 'C01'
     props_file = 'theories/Props/C01.v'
-    rule = 'generated pipelines'
+    aspects = ('outcome', 'trace-tags')
+    n_cases = {'quick': 500, 'thorough': 15000}
+    profile = {'bodies': {'probe': 45, 'fail': 20, 'incr': 5, 'set': 3, 'call': 8, 'jump': 4, 'switch': 2,
+                          'stop': 3, 'stoppipeline': 2, 'stopstepgroup': 3, 'clear': 1, 'clearall': 0, 'pype': 4},
+               'p_foreach': 0.08, 'p_while': 0.05, 'p_retry': 0.06, 'p_handlers': 0.8, 'p_api_groups': 0.5,
+               'n_pipes': (1, 2)}
+    rule = ('generated pipelines: 1-5 groups of 1-5 steps, handlers on_success/on_failure/sh/fh, failing '
+            'steps at every position (swallowed or not), handlers that fail / stop / call, explicit, partial '
+            'and defaulted groups/success/failure arguments; non-trivial = at least two probe events or an '
+            'error outcome; distinct by case hash. Monitor: clean-room reference interpreter (harness/'
+            'refinterp.py) on the single-pipeline fragment: executed steps and outcome')
     trusted_base = EngineProp.engine_trusted
-
-    def monitor(self, case, obs):
-        return []
